@@ -42,6 +42,33 @@ class Mf(State):
         raise TypeError("unsupported format string passed to NoneType.__format__")
 
 
+class Usage(State):
+    """a metric type with derived metric types of its own: each of them is a metric type of its own"""
+
+    ids: Sequence[int]
+
+
+class CachedUsage(Usage):
+    saved: int = 0
+
+
+class BatchUsage(CachedUsage):
+    batch: int = 0
+
+
+class Sized[T](State):
+    """a generic metric type: the unspecialised type and each specialisation are metric types of their own"""
+
+    ids: Sequence[int]
+
+
+RELATED = {"Usage": Usage, "CachedUsage": CachedUsage, "BatchUsage": BatchUsage, "Sized": Sized, "Sized[int]": Sized[int], "Sized[str]": Sized[str]}
+
+
+def concat_same_type(a, b):
+    return a.updated(ids=(*a.ids, *b.ids))
+
+
 TYPES = {"Mx": Mx, "Ms": Ms, "Mr": Mr, "Mf": Mf}
 
 
